@@ -148,6 +148,27 @@ theorem name_field_any_origin (st : Style) (env : PEnv) (n : Name) (hw : WfName 
   obtain ⟨t, hp, hl, hpa, _⟩ := field_name st env n (nameCfg_ok st env n hw ho hcfg)
   exact ⟨t, hp, hl, hpa⟩
 
+/-- "under any origin/relativization choice", `relativize_to` different from `origin` (a zone-file `$ORIGIN` below, above
+or beside the zone origin): a relative name `m` in the text is completed with `origin` and the result is relativized
+against `relativize_to` — `as_name(text of m) = relativize(derelativize(m, origin), relativize_to)`.  The same `asName`
+reads the name of every name-bearing field kind (`.name`, the HIP server list, the IPSECKEY / AMTRELAY gateway). -/
+theorem name_field_relativize_to (env : PEnv) (m o r q : Name) (hw : WfName m) (hoct : OctetsOk m)
+    (ho : env.origin = some o) (hrt : env.relTo = some r) (hr : r ≠ []) (hrel : env.relativize = true)
+    (hm : isAbs m = false) (hq : validate (m ++ o) = .ok q) :
+    parseField env .name ⟨.ident, toText m⟩ =
+      (match relativize q r with | .ok x => some (.nm x) | .error _ => none) ∧
+    parseGatewayTok env 3 ⟨.ident, toText m⟩ =
+      (match relativize q r with | .ok x => some ([], x) | .error _ => none) := by
+  have h := asName_toText env m hw hoct
+  have hb : nameBack env m = (match relativize q r with | .ok x => some x | .error _ => none) := by
+    simp only [nameBack, ho, hrt, hrel, hm, hq, orOrigin, hr, chooseRelativity, if_false, if_true, Bool.false_eq_true]
+    cases relativize q r <;> rfl
+  constructor
+  · simp only [parseField, h, hb]
+    cases relativize q r <;> rfl
+  · simp only [parseGatewayTok, h, hb]
+    cases relativize q r <;> rfl
+
 /-- well-formed for text (the decidable side conditions are spelled out in `FieldOk` / `TailOk`):
 every field within its range, names legal and printed/parsed in a configuration that does not rewrite them,
 character-strings of any octets within their length limits, blobs non-empty, chunking lossless, and the
